@@ -1623,6 +1623,22 @@ func (l *lexer) linebreak() bool {
 				hash = true
 				l.mark(-1)
 			}
+		case '\\':
+			if hash {
+				l.b.WriteRune(r)
+				break
+			}
+			// a line continuation is not a token: the <newline>s after
+			// it still belong to the linebreak
+			l.mark(-1)
+			if !l.scanQuote(r) {
+				return false
+			}
+			if len(l.word) != 0 {
+				// an escaped character: the beginning of the next token
+				return true
+			}
+			l.mark(0)
 		default:
 			if !hash {
 				l.unread()
